@@ -93,6 +93,10 @@ class EKey(Boom, KeyError):
     """... and one of the LookupError family."""
 
 
+class ETimeout(Boom, TimeoutError):
+    """... and the builtin TimeoutError (= asyncio.TimeoutError since 3.11): an ordinary Exception for the retry policy."""
+
+
 class ECancel(asyncio.CancelledError):
     """The node body itself ends with CancelledError although nobody cancelled the run (it awaited something of
     its own that was cancelled): a BaseException outcome of the node like any other."""
@@ -120,7 +124,7 @@ class AlreadySaved(Exception):
     pass
 
 
-EXC = {'E1': E1, 'E2': E2, 'E1Sub': E1Sub, 'EOther': EOther, 'EFalsy': EFalsy, 'ERt': ERt, 'EKey': EKey, 'Fatal': Fatal, 'ECancel': ECancel,
+EXC = {'E1': E1, 'E2': E2, 'E1Sub': E1Sub, 'EOther': EOther, 'EFalsy': EFalsy, 'ERt': ERt, 'EKey': EKey, 'ETimeout': ETimeout, 'Fatal': Fatal, 'ECancel': ECancel,
        'Exception': Exception, 'BaseException': BaseException}
 
 RUN = contextvars.ContextVar('rv_run', default=None)
